@@ -302,10 +302,37 @@ func genC16(r *h.Rand) c16cfg {
 				}
 			}
 		}
+		if np > 0 && r.Chance(25) {
+			// ... or gives a pipeline of the importing file a stage under a name that pipeline already uses (refused,
+			// in the same way, whatever the format)
+			cfg.imported.Set("pipelines", gen.OM{{K: "p0", V: []interface{}{gen.OM{{K: "name", V: "s0"}, {K: "task", V: "imported-task"}}}}})
+		}
+		if r.Chance(40) {
+			// ... gives a field of a task of the importing file in the other of its two forms (string / list)
+			ttasks := cfg.imported[0].V.(gen.OM)
+			t0 := gen.OM{}
+			if ex, ok := ttasks.Get("t0"); ok {
+				t0 = ex.(gen.OM)
+			}
+			var other interface{} = tok("IB:t0")
+			if cur, ok := tasks[0].V.(gen.OM).Get("before"); ok {
+				if _, isList := cur.([]interface{}); !isList {
+					other = []interface{}{tok("IB:t0"), tok("IB2:t0")}
+				}
+			}
+			t0.Set("before", other)
+			ttasks.Set("t0", t0)
+			cfg.imported[0].V = ttasks
+		}
 		if r.Chance(40) {
 			// ... and adds variations to a task of the importing file
 			ttasks := cfg.imported[0].V.(gen.OM)
-			ttasks.Set("t0", gen.OM{{K: "variations", V: []interface{}{gen.OM{{K: "VAR", V: "from-import"}}}}})
+			t0 := gen.OM{}
+			if ex, ok := ttasks.Get("t0"); ok {
+				t0 = ex.(gen.OM)
+			}
+			t0.Set("variations", []interface{}{gen.OM{{K: "VAR", V: "from-import"}}})
+			ttasks.Set("t0", t0)
 			cfg.imported[0].V = ttasks
 		}
 		cfg.importSub = r.Bool()
